@@ -185,6 +185,15 @@ func c15CBOR(c *mon.Ctx, g *model.Gen, sn string, v any, sig string, embedded bo
 		}
 		dst := shapes.New(sn)
 		err := encoding.PopulateStructFromCBOR(extprof.DM, refcbor.Encode(cut), dst)
+		if !f.Optional {
+			// the same into a destination that already holds values (a factory default, a reused object)
+			dirty := shapes.New(sn)
+			shapes.Fill(g.R, dirty, func(int, shapes.FieldInfo) bool { return true })
+			if derr := encoding.PopulateStructFromCBOR(extprof.DM, refcbor.Encode(cut), dirty); derr == nil {
+				bad("missing-mandatory-accepted-into-nonzero-destination", fmt.Sprintf("input without the non-optional key %d was accepted when the destination already held values", f.CBORKey), map[string]any{"hex": mon.Hex(refcbor.Encode(cut))})
+				return
+			}
+		}
 		switch {
 		case !f.Optional && err == nil:
 			bad("missing-mandatory-accepted", fmt.Sprintf("input without the non-optional key %d was accepted", f.CBORKey), map[string]any{"hex": mon.Hex(refcbor.Encode(cut))})
@@ -318,6 +327,14 @@ func c15JSON(c *mon.Ctx, g *model.Gen, sn string, v any, sig string, embedded bo
 		}
 		dst := shapes.New(sn)
 		err := encoding.PopulateStructFromJSON(cut.bytes(), dst)
+		if !f.Optional {
+			dirty := shapes.New(sn)
+			shapes.Fill(g.R, dirty, func(int, shapes.FieldInfo) bool { return true })
+			if derr := encoding.PopulateStructFromJSON(cut.bytes(), dirty); derr == nil {
+				bad("missing-mandatory-accepted-into-nonzero-destination", "input without the non-optional member "+f.JSONName+" was accepted when the destination already held values", map[string]any{"json": string(cut.bytes())})
+				return
+			}
+		}
 		switch {
 		case !f.Optional && err == nil:
 			bad("missing-mandatory-accepted", "input without the non-optional member "+f.JSONName+" was accepted", map[string]any{"json": string(cut.bytes())})
@@ -418,7 +435,7 @@ func c15Synth(c *mon.Ctx, g *model.Gen, n int, fill string) {
 }
 
 func runC15(c *mon.Ctx) {
-	c.Rule("shapes following the claims convention (pointer-typed tagged fields, '-' for bookkeeping fields): flat; one and two levels of embedded struct; embedded interface holding a struct pointer or nothing; all-optional flat and embedded; flat reflect.StructOf shapes with N synthetic keys, N (and number of set fields) in {0,1,22,23,24,25,254,255,256,257} (thorough: also 65534..65537, 70000); the two extension profiles built on P2Claims / P1Claims. For random field values x every subset of optional fields (mandatory fields set or nil): the output of SerializeStructToCBOR / JSON, read by the independent CBOR reader / a generic JSON parse, must be exactly one map = union of outer and embedded fields honouring omitempty and '-', right value per key, no duplicates, nothing trailing; serialising twice gives identical bytes; populating a fresh struct reproduces the value (incl. the all-empty one); for shapes without embedding the output decodes to the same map as the plain fxamacker / encoding/json marshaller's; removing a non-optional key makes populate fail, removing an optional one does not; a duplicated CBOR key makes populate fail. Extension profiles: MarshalCBOR/JSON of valid claims = base profile wire map + extension member, and round-trips. distinct_nontrivial = distinct (shape, set-field subset) signatures")
+	c.Rule("shapes following the claims convention (pointer-typed tagged fields, '-' for bookkeeping fields): flat; one and two levels of embedded struct; embedded interface holding a struct pointer or nothing; all-optional flat and embedded; flat reflect.StructOf shapes with N synthetic keys, N (and number of set fields) in {0,1,22,23,24,25,254,255,256,257} (thorough: also 65534..65537, 70000); the two extension profiles built on P2Claims / P1Claims. For random field values x every subset of optional fields (mandatory fields set or nil): the output of SerializeStructToCBOR / JSON, read by the independent CBOR reader / a generic JSON parse, must be exactly one map = union of outer and embedded fields honouring omitempty and '-', right value per key, no duplicates, nothing trailing; serialising twice gives identical bytes; populating a fresh struct reproduces the value (incl. the all-empty one); for shapes without embedding the output decodes to the same map as the plain fxamacker / encoding/json marshaller's; removing a non-optional key makes populate fail (into a zero destination and into one that already holds values), removing an optional one does not; a duplicated CBOR key makes populate fail. Extension profiles: MarshalCBOR/JSON of valid claims = base profile wire map + extension member, and round-trips. distinct_nontrivial = distinct (shape, set-field subset) signatures")
 	if err := extprof.Register(extprof.ExtP2Name, extprof.ExtP1Name); err != nil {
 		c.Violation("harness/register", err.Error(), nil)
 		return
